@@ -67,6 +67,10 @@ struct Case {
     nadj: usize,
     part_count: usize,
     order: u32,
+    /// Rcb / Rib `iter_count` (0 is their Default), FM `max_passes`
+    iter_count: usize,
+    /// 0: tolerance 0.05 / max_imbalance Some(0.5); 1: tolerance 0.0 / max_imbalance None; 2: negative tolerance / Some(0.0)
+    tol_kind: usize,
 }
 
 /// (code, a, b) in the numbering of Lib/Report.v `impl_res`
@@ -154,6 +158,8 @@ fn gen_case(idx: usize, r: &mut Rng) -> Case {
         nadj: 0,
         part_count: *r.pick(&[0usize, 1, 2, 2, 3, 5]),
         order: 12,
+        iter_count: *r.pick(&[0usize, 0, 1, 2]),
+        tol_kind: r.below(3) as usize,
     };
     if alg >= 9 {
         // HilbertCurve: orders above the maximum (lengths always consistent: the length clause
@@ -165,11 +171,16 @@ fn gen_case(idx: usize, r: &mut Rng) -> Case {
             1 => ("order_above_max", max + 2 + r.below(100) as u32),
             2 => ("order_huge", r.range(max as i64 + 1, u32::MAX as i64) as u32),
             3 => ("order_u32_max", u32::MAX - r.below(2) as u32),
-            _ => ("control", r.range(1, max as i64) as u32),
+            _ => {
+                let any = r.range(1, max as i64) as u32;
+                ("control", *r.pick(&[0u32, 1, 2, 12, max - 1, max, any]))
+            }
         };
         c.family = fam.into();
         c.order = order;
-        c.part_count = 2;
+        // degenerate part counts only together with an invalid order (the error comes first);
+        // valid orders keep a benign part count (what the algorithm proper does is C01's business)
+        c.part_count = if order > max { *r.pick(&[0usize, 1, 2, 3, 1000]) } else { *r.pick(&[1usize, 2, 2, 3]) };
         let plen = if r.chance(1, 6) { 0 } else { n };
         c.p0 = (0..plen).map(|i| usize::MAX - 3 * i).collect();
         c.weights = Weights::F((0..n).map(|_| r.range(1, 9) as f64).collect());
@@ -298,9 +309,11 @@ fn run_impl(c: &Case, r: &mut Rng) -> (Guarded<Outcome>, Vec<usize>) {
         let wi = c.weights.as_i64();
         let wf = c.weights.as_f64();
         let float = matches!(c.weights, Weights::F(_));
+        let tol = [0.05, 0.0, -1.0][c.tol_kind];
+        let imb = [Some(0.5), None, Some(0.0)][c.tol_kind];
         match c.alg {
             0 => {
-                let mut a = coupe::Rcb { iter_count: 1, tolerance: 0.05 };
+                let mut a = coupe::Rcb { iter_count: c.iter_count, tolerance: tol };
                 if three_d {
                     a.partition(p, (pts3, wi)).map_err(err_code)
                 } else {
@@ -308,7 +321,7 @@ fn run_impl(c: &Case, r: &mut Rng) -> (Guarded<Outcome>, Vec<usize>) {
                 }
             }
             1 => {
-                let mut a = coupe::Rib { iter_count: 1, tolerance: 0.05 };
+                let mut a = coupe::Rib { iter_count: c.iter_count, tolerance: tol };
                 if three_d {
                     a.partition(p, (&pts3[..], wi)).map_err(err_code)
                 } else {
@@ -317,7 +330,7 @@ fn run_impl(c: &Case, r: &mut Rng) -> (Guarded<Outcome>, Vec<usize>) {
             }
             2 => coupe::Greedy { part_count: c.part_count }.partition(p, wi).map_err(err_code),
             3 => coupe::KarmarkarKarp { part_count: c.part_count }.partition(p, wi).map_err(err_code),
-            4 => coupe::CompleteKarmarkarKarp { tolerance: 0.1 }.partition(p, wi).map_err(err_code),
+            4 => coupe::CompleteKarmarkarKarp { tolerance: [0.1, 0.0, 1.0][c.tol_kind] }.partition(p, wi).map_err(err_code),
             5 => {
                 if float {
                     coupe::VnBest.partition(p, wf).map(|_| ()).map_err(err_code)
@@ -328,14 +341,14 @@ fn run_impl(c: &Case, r: &mut Rng) -> (Guarded<Outcome>, Vec<usize>) {
             6 => coupe::VnFirst.partition(p, &wi[..]).map(|_| ()).map_err(err_code),
             7 => {
                 let adj = path_graph(c.nadj);
-                coupe::FiducciaMattheyses { max_passes: Some(3), ..Default::default() }
+                coupe::FiducciaMattheyses { max_passes: Some(c.iter_count), max_imbalance: imb, ..Default::default() }
                     .partition(p, (adj.view(), &wi[..]))
                     .map(|_| ())
                     .map_err(err_code)
             }
             8 => {
                 let adj = path_graph(c.nadj);
-                coupe::ArcSwap { max_imbalance: Some(0.5) }
+                coupe::ArcSwap { max_imbalance: imb }
                     .partition(p, (adj.view(), &wi[..]))
                     .map(|_| ())
                     .map_err(err_code)
@@ -419,7 +432,7 @@ fn main() {
         };
         let kf = ""; // no open known finding (Rib's empty-points defect was repaired by f977178)
         let json = format!(
-            "{{\"alg\":{},\"partition\":{},\"weights\":{},\"points_len\":{},\"adjacency_len\":{},\"part_count\":{},\"order\":{},\"impl\":{},\"partition_after\":{}{}}}",
+            "{{\"alg\":{},\"partition\":{},\"weights\":{},\"points_len\":{},\"adjacency_len\":{},\"part_count\":{},\"order\":{},\"iter_count\":{},\"tol_kind\":{},\"impl\":{},\"partition_after\":{}{}}}",
             json_str(NAMES[c.alg]),
             json_usizes(&c.p0),
             c.weights.json(),
@@ -427,14 +440,16 @@ fn main() {
             c.nadj,
             c.part_count,
             c.order,
+            c.iter_count,
+            c.tol_kind,
             impl_json,
             json_usizes(&after),
             kf
         );
         let sign_s: String = signs.iter().collect();
         let key = format!(
-            "{}|{:?}|{}|{}|{}|{}|{}",
-            c.alg, c.p0, sign_s, c.npoints, c.nadj, c.part_count, c.order
+            "{}|{:?}|{}|{}|{}|{}|{}|{}|{}",
+            c.alg, c.p0, sign_s, c.npoints, c.nadj, c.part_count, c.order, c.iter_count, c.tol_kind
         );
         // non-trivial: some clause of the property applies to the call
         let n = c.p0.len();
